@@ -225,12 +225,9 @@ class CharacterClass(MutableSet[int]):
                     if self.negative:
                         self.negative.update(value)
                 elif part[-1].islower():
-                    self.positive -= value()
-                    if self.negative:
-                        self.negative |= value()
+                    self._discard_subset(value())
                 else:
-                    self.positive &= value()
-                    self.negative.clear()
+                    self._discard_complement(value())
 
             elif part.startswith('\\p') or part.startswith('\\P'):
                 if self._re_unicode_ref.search(part) is None:
@@ -245,13 +242,26 @@ class CharacterClass(MutableSet[int]):
                     self.positive -= UnicodeSubset([(0, maxunicode + 1)])
                 else:
                     if part.startswith('\\p'):
-                        self.positive -= subset
+                        self._discard_subset(subset)
                     else:
-                        self.negative -= subset
+                        self._discard_complement(subset)
             else:
                 self.positive.difference_update(part)
                 if self.negative:
                     self.negative.update(part)
+
+    def _discard_subset(self, subset: UnicodeSubset) -> None:
+        """Removes the members of a subset: (P | ~N) - S = (P - S) | ~(N | S)."""
+        self.positive -= subset
+        if self.negative:
+            self.negative |= subset
+
+    def _discard_complement(self, subset: UnicodeSubset) -> None:
+        """Removes the complement of a subset: (P | ~N) & S = (P & S) | (S - N)."""
+        self.positive &= subset
+        if self.negative:
+            self.positive |= subset - self.negative
+            self.negative.clear()
 
     def clear(self) -> None:
         self.positive.clear()
